@@ -17,6 +17,12 @@
 //   - ORACLE: each call must return exactly what the same call returns in a
 //     sequential run on fresh objects (canonical results of x/c11).
 //
+// A second stream, "nested" (nested.go, its own child process), does the same
+// with random forests of user-type objects that OWN types themselves
+// (T.AddType(U), U.AddType(V), …; or rule-sets, shortcuts, enum rules inside),
+// shared by 2..6 roots that are compiled for the first time by different
+// goroutines.
+//
 // Type objects involved in an allOf expansion (the type uses allOf, or the
 // root using them has an allOf rule that names them) are rewritten in place
 // by every root's compile: sharing those between roots is the known finding
@@ -664,10 +670,10 @@ func nestedRounds(known bool) int {
 	if known {
 		return vh.Pick(60, 600)
 	}
-	return vh.Pick(200, 5000)
+	return vh.Pick(200, 3000)
 }
 
-const soloRepeat = 20
+const soloRepeat = 12
 
 type soloResult struct {
 	keys    map[string]bool // keys of the race reports the round produces alone
@@ -772,11 +778,11 @@ func Run(args []string) {
 		// the nested rounds bracket themselves with marks: a report carries the (few) rounds that were running when
 		// it was printed; these are replayed alone to name the one that produces it
 		var cands []string
-		for _, r := range o.races {
-			cands = append(cands, r.Marks...)
-		}
 		if o.problem != "" {
 			cands = append(cands, o.openAtEnd...)
+		}
+		for _, r := range o.races {
+			cands = append(cands, r.Marks...)
 		}
 		solo := confirmNested(stream, cands)
 		scenario := func(key string, marks []string) string {
